@@ -106,6 +106,10 @@ def run(prop, tier):
       undecided.append({'unit': r['name'], 'why': '%s: %s' % (r['status'], r.get('error'))})
       lines.append('UNDECIDED unit=%s not generated: %s' % (r['name'], r.get('error')))
     for o in r['obligations']:
+      if o['kind'] == 'vacuity' and o['result'] == 'unknown' and n and n['evaluations'] > 0:
+        # satisfiability probe the solver could not settle: the bounded back end ran the real
+        # function on inputs satisfying the precondition and reached a normal exit -- a witness
+        o['result'], o['backend'] = 'proved', 'native-witness'
       n_obl += 1
       vc_time += o['time']
       if o['backend']:
